@@ -93,7 +93,9 @@ def run_case(case):
     modes = [None] + [rng.choice(["fresh", "disk", "cache"] if bname != "fs" else ["fresh", "disk"]) for _ in range(L - 1)]
     cid = "chain-%d-%d" % (case["seed"], case["idx"])
     containers = [rng.choice(["dict", "dict", "defaultdict", "ordered"]) for _ in range(L)]
-    spec = [{"kind": kinds[l], "make": level_factory(case["seed"], case["idx"], l, keysets[l]), "container": containers[l]}
+    spec = [{"kind": kinds[l], "make": level_factory(case["seed"], case["idx"], l, keysets[l]), "container": containers[l],
+             # (on-disk levels of every other case assign their keys twice: a shared first value, then the real one)
+             "reassign": case["idx"] % 2 == 1}
             for l in range(L)]
     ffuncs.TABLE[cid] = spec
     overlays, cur = [], {}
